@@ -28,7 +28,7 @@ ASSUMPTIONS = [
     "bool token tables; str.strip().upper(); str->UTF-8)",
     "dict.setdefault(key) in its one-argument form is not exercised (the typed API requires a value)",
 ]
-REQUIRED = ["list", "dict", "arg:iterator", "arg:generator", "arg:same-proxy", "arg:other-proxy", "arg:self",
+REQUIRED = ["list", "dict", "arg:iterator", "arg:generator", "arg:same-proxy", "arg:other-proxy", "arg:sameclass-proxy", "arg:self",
             "op:setslice", "op:update", "op:ior", "op:setdefault", "op:iadd", "op:add", "op:copy", "op:sort"]
 LEVEL_TEXT = (
     "Generated operation histories run in lock-step against the built-in container (the specification the "
@@ -116,7 +116,7 @@ def _slice():
     return st.tuples(bound, bound, st.one_of(st.none(), st.none(), st.sampled_from([1, 2, -1, -2, 3])))
 
 
-ITERKINDS = ["list", "tuple", "iterator", "generator", "same-proxy", "other-proxy", "self"]
+ITERKINDS = ["list", "tuple", "iterator", "generator", "same-proxy", "other-proxy", "sameclass-proxy", "self"]
 
 
 def _list_op(kind):
@@ -145,7 +145,7 @@ def _list_op(kind):
         d({"op": j("reverse")}),
         d({"op": j("clear")}),
         d({"op": j("query"), "i": _index(), "s": _slice(), "v": v}),
-        d({"op": j("reassign"), "items": items, "ik": st.sampled_from(["list", "tuple", "same-proxy", "other-proxy", "self"])}),
+        d({"op": j("reassign"), "items": items, "ik": st.sampled_from(["list", "tuple", "same-proxy", "other-proxy", "sameclass-proxy", "self"])}),
     ]
     return st.one_of(*ops)
 
@@ -155,7 +155,7 @@ def _dict_op(kkind, vkind):
     v = _value(vkind)
     pairs = st.lists(st.tuples(k, v), max_size=3)
     kw = st.dictionaries(st.sampled_from(["a", "b", "cc", "d_1"]), v, max_size=2)
-    dk = st.sampled_from(["dict", "pairs", "tuple", "iterator", "generator", "same-proxy", "other-proxy", "self"])
+    dk = st.sampled_from(["dict", "pairs", "tuple", "iterator", "generator", "same-proxy", "other-proxy", "sameclass-proxy", "self"])
     d = st.fixed_dictionaries
     j = st.just
     ops = [
@@ -208,6 +208,10 @@ def strategy(tier):
         st.sampled_from([("str", "int"), ("str", "bool"), ("int", "str"), ("str", "bytes"), ("bytes", "int")]).flatmap(dict_case),
         schema_case,
     )
+
+
+# thorough tier: coverage-guided campaigns (atheris/libFuzzer over this module's strategy, cincoconfig instrumented)
+FUZZ = {"runs": 15000, "campaigns": 4}
 
 
 def budget(tier):
@@ -275,6 +279,8 @@ def _run_list(case, R):
     schema.items = cc.ListField(_field(cc, kind))
     # a typed list of a *different* field: it keeps raw, un-normalised items
     schema.other = cc.ListField(cc.Field())
+    # ... and one whose item field has the same class as ours but other options (so it holds other normal forms)
+    schema.cousin = cc.ListField(cc.StringField(transform_case="lower", transform_strip=True) if kind == "str" else _field(cc, kind))
     cfg = schema()
     cfg.items = case["init"]
     L = cfg.items
@@ -302,6 +308,9 @@ def _run_list(case, R):
         if ik == "other-proxy":
             flags.add("iter")
             return schema.other.validate(cfg, list(items)), list(normed)
+        if ik == "sameclass-proxy":
+            flags.add("iter")
+            return schema.cousin.validate(cfg, list(items)), list(normed)
         flags.add("iter")
         return L, list(M)
 
@@ -433,6 +442,8 @@ def _run_dict(case, R):
     schema.d = cc.DictField(_field(cc, kk), _field(cc, vk))
     # a typed dict of *different* fields: it keeps raw, un-normalised keys and values
     schema.other = cc.DictField(cc.Field(), cc.Field())
+    schema.cousin = cc.DictField(cc.StringField(transform_case="lower") if kk == "str" else _field(cc, kk),
+                                 cc.StringField(transform_case="lower", transform_strip=True) if vk == "str" else _field(cc, vk))
     cfg = schema()
     cfg.d = dict((k, v) for k, v in case["init"] if _hashable(k))
     D = cfg.d
@@ -471,6 +482,10 @@ def _run_dict(case, R):
         if dk == "other-proxy":
             flags.add("iter")
             return schema.other.validate(cfg, dict(pairs)), {norm(kk, k): norm(vk, v) for k, v in dict(pairs).items()}
+        if dk == "sameclass-proxy":
+            flags.add("iter")
+            src = schema.cousin.validate(cfg, dict(pairs))
+            return src, {norm(kk, k): norm(vk, v) for k, v in dict(src).items()}
         flags.add("iter")
         return D, dict(M)
 
